@@ -15,6 +15,15 @@
 //   C04 perseus <pomdp> nB <belief>* v0 h | <vf>        PERSEUS run with its (reproduced) belief list vs perseusRun
 //   C04 ls <pomdp> <vlist prev> | <vlist level> | walked tie nLists {n <belief>*}*   one LinearSupport timestep vs lsStep
 //   C04 pbvi <pomdp> nB <belief>* h | <vf>              PBVI(nB, h, 0)(model, beliefs): whole run vs the Lean model pbviRun
+//   C04 pbviw <pomdp> explicit nB <belief>* h | <vf v0> | <vf>   PBVI warm start: operator()(model, beliefs, v0) (explicit=1, vs pbviRunFrom)
+//                                                        or operator()(model, v0) (explicit=0, clauses only)
+//   C04 ip <pomdp> <vlist prev> | <vlist level> | walked nCalls {<vlist in> <vlist out>}*   one IncrementalPruning timestep vs ipStep,
+//                                                        the Pruner's answers (logged along the library's own loop) as the oracle
+//   C04 wt <pomdp> <vlist prev> | <vlist level> | walked {nCalls {uLen <vec> has [<belief>]}*}*A <vlist in> <vlist out>   one Witness timestep vs
+//                                                        witnessAction / the final prune, the witness LP's answers (logged along the library's own loop) as the oracle
+//   C04 mk S A O | <vf> | <vf>                          makeValueFunction(S) and Policy(S,A,O).getValueFunction() vs zeroVF
+//   the vf line carries a 4th section:  | ioStatus nQ {bIdx h a id pOK}*   sampleAction(b,h) / getActionProbability at EVERY stored
+//       horizon; ioStatus 1 = every Policy call of the line went through a Policy written to a stream and loaded back (2 = load failed)
 #include "common/verif.hpp"
 #include "common/gen.hpp"
 #include <AIToolbox/Seeder.hpp>
@@ -31,10 +40,30 @@
 #include <AIToolbox/POMDP/SparseModel.hpp>
 #include <AIToolbox/POMDP/Algorithms/Utils/BeliefGenerator.hpp>
 #include <AIToolbox/MDP/SparseModel.hpp>
+#include <AIToolbox/POMDP/IO.hpp>
+#include <sstream>
 
 using namespace verif;
 namespace P = AIToolbox::POMDP;
 using Model = P::Model<AIToolbox::MDP::Model>;
+
+// a model that offers only the element-wise interface (IsModel but not IsModelEigen): the solvers, the Projecter, the
+// BeliefGenerator and MDP::ValueIteration then take their generic (non-Eigen) branches
+struct PlainModel {
+    const Model & m;
+    size_t getS() const { return m.getS(); }
+    size_t getA() const { return m.getA(); }
+    size_t getO() const { return m.getO(); }
+    double getDiscount() const { return m.getDiscount(); }
+    double getTransitionProbability(size_t s, size_t a, size_t s1) const { return m.getTransitionProbability(s, a, s1); }
+    double getExpectedReward(size_t s, size_t a, size_t s1) const { return m.getExpectedReward(s, a, s1); }
+    double getObservationProbability(size_t s1, size_t a, size_t o) const { return m.getObservationProbability(s1, a, o); }
+    bool isTerminal(size_t s) const { return m.isTerminal(s); }
+    std::tuple<size_t, double> sampleSR(size_t s, size_t a) const { return m.sampleSR(s, a); }
+    std::tuple<size_t, size_t, double> sampleSOR(size_t s, size_t a) const { return m.sampleSOR(s, a); }
+};
+static_assert(P::IsModel<PlainModel>);
+static_assert(!P::IsModelEigen<PlainModel>);
 
 static void putEntry(Line & l, const P::VEntry & e) {
     putVector(l, e.values); l << e.action; l.nats(e.observations);
@@ -66,9 +95,26 @@ static bool dfs(const P::Policy & pol, const P::ValueFunction & vf, size_t O, si
 }
 
 static void emitVF(const char * comp, unsigned hReq, const PomdpTables & pt, const P::ValueFunction & vf,
-                   const std::vector<AIToolbox::Vector> & beliefs) {
+                   const std::vector<AIToolbox::Vector> & beliefs, int useIO = 0) {
     Line l; l << "C04" << "vf" << comp << hReq; putPomdp(l, pt); l << "|"; putVF(l, vf); l << "|";
-    P::Policy pol(pt.S, pt.A, pt.O, vf);
+    P::Policy pol0(pt.S, pt.A, pt.O, vf);
+    // optionally every Policy call below goes through a Policy that was written to a stream and loaded back
+    // (the documented way to keep a policy: Policy(S,A,O) then operator>>); the loader rebuilds every link
+    P::Policy loaded(pt.S, pt.A, pt.O);
+    int ioStatus = 0;
+    if (useIO) {
+        std::stringstream st; st << pol0;
+        if (useIO == 2) st << "trailing 1 2 3\n";           // "other things can also be put on the stream"
+        st >> loaded;
+        ioStatus = (!st.fail() && loaded.getH() + 1 == vf.size()) ? 1 : 2;
+        bool same = ioStatus == 1;
+        for (size_t h = 1; same && h < vf.size(); ++h) {
+            same = loaded.getValueFunction()[h].size() == vf[h].size();
+            for (size_t i = 0; same && i < vf[h].size(); ++i) same = (loaded.getValueFunction()[h][i] == vf[h][i]);
+        }
+        std::printf("#stat policy_io:%s 1\n", ioStatus == 1 ? (same ? "identical" : "loaded_differs") : "load_failed");
+    }
+    const P::Policy & pol = ioStatus == 1 ? loaded : pol0;
     size_t H = vf.size() - 1;
     bool topOk = vf.back().size() > 0;
     l << (size_t)(topOk ? beliefs.size() : 0);
@@ -87,8 +133,27 @@ static void emitVF(const char * comp, unsigned hReq, const PomdpTables & pt, con
     }
     l << complete << (size_t)(seq.size() / 2);
     for (auto x : seq) l << x;
+    // sampleAction(b, h) and getActionProbability(b, a, h) at EVERY stored horizon h <= H (h = 0: "a valid, non-specified action")
+    l << "|" << ioStatus;
+    std::vector<std::array<size_t, 5>> qs;
+    bool allOk = true; for (const auto & w : vf) allOk = allOk && !w.empty();
+    if (allOk) for (size_t h = 0; h <= H; ++h) {
+        for (size_t bi = 0; bi < beliefs.size(); ++bi) {
+            if (h < H && bi != (h % beliefs.size()) && bi + 1 != beliefs.size()) continue;     // two beliefs per lower horizon, all at the top
+            const auto & b = beliefs[bi];
+            auto [a, id] = pol.sampleAction(b, (unsigned)h);
+            bool pOK = true;
+            for (size_t x = 0; x < pt.A; ++x) {
+                pOK = pOK && pol.getActionProbability(b, x, (unsigned)h) == (x == a ? 1.0 : 0.0);
+                if (h == H) pOK = pOK && pol.getActionProbability(b, x) == (x == a ? 1.0 : 0.0);
+            }
+            qs.push_back({bi, h, a, id, (size_t)pOK});
+        }
+    }
+    l << (size_t)qs.size();
+    for (auto & q : qs) for (auto x : q) l << x;
     l.emit();
-    std::printf("#stat comp:%s 1\n#stat H:%zu 1\n#stat top:%zu 1\n", comp, H, std::min<size_t>(vf.back().size(), 99));
+    std::printf("#stat comp:%s 1\n#stat H:%zu 1\n#stat top:%zu 1\n#stat S:%zu 1\n#stat A:%zu 1\n#stat O:%zu 1\n", comp, H, std::min<size_t>(vf.back().size(), 99), pt.S, pt.A, std::min<size_t>(pt.O, 9));
 }
 
 static std::vector<AIToolbox::Vector> someBeliefs(Rng & rng, size_t S, size_t n) {
@@ -137,6 +202,12 @@ static P::ValueFunction solveWith(Rng & rng, int which, const M & model, const P
                 return std::get<1>(s(model, bl));
             }
             if (!fewBeliefs && rng.coin()) { auto bl = someBeliefs(rng, pt.S, pt.S + 1 + rng.below(6)); return std::get<1>(s(model, bl)); }
+            if (h >= 2 && rng.coin()) {               // two stages: h1 levels, then the rest warm-started through operator()(model, v)
+                unsigned h1 = 1 + (unsigned)rng.below(h - 1);
+                P::PBVI s1(8, h1, 0.0); auto v1 = std::get<1>(s1(model));
+                P::PBVI s2(8, h - h1, tol); std::printf("#stat pbvi_two_stage 1\n");
+                return std::get<1>(s2(model, v1));
+            }
             return std::get<1>(s(model));
         }
         case 4: {
@@ -148,14 +219,16 @@ static P::ValueFunction solveWith(Rng & rng, int which, const M & model, const P
     }
 }
 
-static void runSolver(Rng & rng, int which, const PomdpTables & pt, unsigned h, double tol = 0.0, bool sparse = false, size_t fewBeliefs = 0) {
+static void runSolver(Rng & rng, int which, const PomdpTables & pt, unsigned h, double tol = 0.0, int kind = 0, size_t fewBeliefs = 0) {
     Model model = toDense(pt);
     AIToolbox::Seeder::setRootSeed((unsigned)rng.below(1u << 30));
     P::ValueFunction vf;
-    if (sparse) { SparseModel sm(model); vf = solveWith(rng, which, sm, pt, h, tol, fewBeliefs); std::printf("#stat sparse 1\n"); }
+    if (kind == 1) { SparseModel sm(model); vf = solveWith(rng, which, sm, pt, h, tol, fewBeliefs); std::printf("#stat sparse 1\n"); }
+    else if (kind == 2) { PlainModel pm{model}; vf = solveWith(rng, which, pm, pt, h, tol, fewBeliefs); std::printf("#stat plain_model 1\n"); }
     else vf = solveWith(rng, which, model, pt, h, tol, fewBeliefs);
     if (fewBeliefs) std::printf("#stat few_beliefs:%zu 1\n#stat long_horizon:%u 1\n", fewBeliefs, h);
-    emitVF(kSolvers[which], h, pt, vf, someBeliefs(rng, pt.S, pt.S + 4));
+    int useIO = rng.coin(1, 3) ? (rng.coin(1, 4) ? 2 : 1) : 0;
+    emitVF(kSolvers[which], h, pt, vf, someBeliefs(rng, pt.S, pt.S + 4), useIO);
 }
 
 // "ugly" tables: non-dyadic probabilities (k/n rounded to double, rows summing to 1 only up to rounding), discount 0.95 / 0.9,
@@ -229,7 +302,8 @@ static void emitCS(Rng & rng) {
 // Projecter::operator()(w, a) on a random previous list, then crossSumBestAtBelief(b, row, a) on the (optionally
 // shuffled-by-extractDominated) row: the two kernels every solver assembles its entries from.
 static void emitPJ(Rng & rng) {
-    size_t S = 2 + rng.below(3), A = 1 + rng.below(3), O = 1 + rng.below(4);
+    size_t S = 1 + rng.below(4), A = 1 + rng.below(3), O = 1 + rng.below(4);
+    if (rng.coin(1, 4)) O = 5 + rng.below(4);              // O >> S
     auto pt = randomPomdp(rng, S, A, O);
     Model model = toDense(pt);
     size_t n = 1 + rng.below(4);
@@ -243,6 +317,10 @@ static void emitPJ(Rng & rng) {
     size_t a = rng.below(A);
     P::Projecter<Model> proj(model);
     auto row = proj(w, a);
+    if (rng.coin(1, 3)) {                                  // the element-wise (non-Eigen) branch of the Projecter
+        PlainModel pm{model}; P::Projecter<PlainModel> pproj(pm);
+        row = pproj(w, a); std::printf("#stat pj_plain_model 1\n");
+    }
     { Line l; l << "C04" << "pj"; putPomdp(l, pt); putVList(l, w); l << a << "|" << (size_t)O;
       for (size_t o = 0; o < O; ++o) putVList(l, row[o]);
       l.emit(); }
@@ -432,9 +510,173 @@ static void emitPBVI(Rng & rng) {
     l << h << "|"; putVF(l, vf); l.emit();
 }
 
+// IncrementalPruning, one timestep at a time: the real run gives the levels; the answers the real Pruner gives along the way are
+// obtained by walking the same loop here with the library's own kernels (Projecter, Pruner, the private crossSum) in the same
+// order with ONE Pruner object, as the library does.  They are ORACLE answers for the Lean model `ipStep` (projection, pruning of
+// every projection list, the merge schedule with crossSum + prune at each merge, concatenation, final prune), which is then
+// compared with the real level.
+static void emitIP(Rng & rng) {
+    size_t S = 1 + rng.below(3), A = 1 + rng.below(3), O = 1 + rng.below(4);
+    unsigned h = 1 + (unsigned)rng.below(3);
+    if (rng.coin(1, 4)) { O = 5 + rng.below(3); S = std::min<size_t>(S, 2); }
+    if (O >= 4) h = std::min(h, 2u);
+    auto pt = randomPomdp(rng, S, A, O);
+    Model model = toDense(pt);
+    P::IncrementalPruning solver(h, 0.0);
+    auto vf = std::get<1>(solver(model));
+    AIToolbox::Pruner prune(S);
+    P::Projecter<Model> projecter(model);
+    for (size_t t = 1; t < vf.size(); ++t) {
+        std::vector<std::pair<P::VList, P::VList>> calls;
+        auto pruneLog = [&](P::VList & l) {
+            P::VList in = l;
+            l.erase(prune(std::begin(l), std::end(l), P::unwrap), std::end(l));
+            calls.emplace_back(std::move(in), l);
+        };
+        auto projs = projecter(vf[t - 1]);
+        P::VList w;
+        for (size_t a = 0; a < A; ++a) {
+            for (size_t o = 0; o < O; ++o) pruneLog(projs[a][o]);
+            bool oddOld = O % 2;
+            int i, front = 0, back = (int)O - oddOld, stepsize = 2, diff = 1, elements = (int)O;
+            while (elements > 1) {
+                for (i = front; i != back; i += stepsize) {
+                    projs[a][i] = solver.crossSum(projs[a][i], projs[a][i + diff], a, stepsize > 0);
+                    pruneLog(projs[a][i]);
+                    --elements;
+                }
+                const bool oddNew = elements % 2;
+                const int tmp = back;
+                back = front - (oddNew ? 0 : stepsize);
+                front = tmp - (oddOld ? 0 : stepsize);
+                stepsize *= -2; diff *= -2;
+                oddOld = oddNew;
+            }
+            w.insert(std::end(w), std::begin(projs[a][front]), std::end(projs[a][front]));
+        }
+        pruneLog(w);
+        bool walked = w.size() == vf[t].size();
+        for (size_t k = 0; walked && k < w.size(); ++k) walked = (w[k] == vf[t][k]);
+        Line l; l << "C04" << "ip"; putPomdp(l, pt); putVList(l, vf[t - 1]); l << "|"; putVList(l, vf[t]); l << "|";
+        l << walked << (size_t)calls.size();
+        for (auto & c : calls) { putVList(l, c.first); putVList(l, c.second); }
+        l.emit();
+        std::printf("#stat ip_calls:%zu 1\n#stat ip_O:%zu 1\n", std::min<size_t>(calls.size(), 40), O);
+    }
+}
+
+// Witness, one timestep at a time (same idea as emitIP / emitLS): the loop is walked here with the library's own kernels
+// (Projecter, WitnessLP, addDefaultEntry / addVariations, crossSumBestAtBelief, Pruner) in the library's order with ONE WitnessLP
+// and ONE Pruner; the LP's answers are ORACLE answers for the Lean model `witnessAction`.
+static void emitWT(Rng & rng) {
+    size_t S = 1 + rng.below(3), A = 1 + rng.below(3), O = 1 + rng.below(3);
+    unsigned h = 1 + (unsigned)rng.below(3);
+    if (rng.coin(1, 5)) { O = 4 + rng.below(2); S = std::min<size_t>(S, 2); A = std::min<size_t>(A, 2); h = std::min(h, 2u); }
+    auto pt = randomPomdp(rng, S, A, O);
+    Model model = toDense(pt);
+    P::Witness solver(h, 0.0);
+    auto vf = std::get<1>(solver(model));
+    P::Witness wt(h, 0.0); wt.S = S; wt.A = A; wt.O = O;
+    P::Projecter<Model> project(model);
+    AIToolbox::Pruner prune(S);
+    AIToolbox::WitnessLP lp(S);
+    size_t reserveSize = 1;
+    struct Call { size_t uLen; AIToolbox::Vector v; bool has; AIToolbox::Vector b; };
+    for (size_t t = 1; t < vf.size(); ++t) {
+        reserveSize = std::max(reserveSize, 2 * vf[t - 1].size());
+        auto projections = project(vf[t - 1]);
+        std::vector<std::vector<Call>> calls(A);
+        std::vector<P::VList> U(A);
+        for (size_t a = 0; a < A; ++a) {
+            lp.reset(); wt.agenda_.clear(); wt.triedVectors_.clear();
+            size_t counter = 0;
+            lp.allocate(reserveSize);
+            wt.addDefaultEntry(projections[a]);
+            size_t guard = 0;
+            while (!wt.agenda_.empty() && guard++ < 100000) {
+                const auto witness = lp.findWitness(wt.agenda_.back());
+                calls[a].push_back(Call{U[a].size(), wt.agenda_.back(), (bool)witness, witness ? *witness : AIToolbox::Vector()});
+                if (witness) {
+                    auto best = P::crossSumBestAtBelief(*witness, projections[a], a);
+                    const auto sameValues = [&best](const P::VEntry & e) { return e.values == best.values; };
+                    if (std::any_of(std::begin(U[a]), std::end(U[a]), sameValues)) { wt.agenda_.pop_back(); continue; }
+                    U[a].push_back(std::move(best));
+                    lp.addOptimalRow(U[a].back().values);
+                    wt.addVariations(projections[a], U[a].back());
+                    if (++counter == reserveSize) { reserveSize *= 2; lp.allocate(reserveSize); }
+                } else wt.agenda_.pop_back();
+            }
+        }
+        P::VList w;
+        for (size_t a = 0; a < A; ++a) w.insert(std::end(w), std::begin(U[a]), std::end(U[a]));
+        P::VList in = w;
+        w.erase(prune(std::begin(w), std::end(w), P::unwrap), std::end(w));
+        bool walked = w.size() == vf[t].size();
+        for (size_t k = 0; walked && k < w.size(); ++k) walked = (w[k] == vf[t][k]);
+        Line l; l << "C04" << "wt"; putPomdp(l, pt); putVList(l, vf[t - 1]); l << "|"; putVList(l, vf[t]); l << "|" << walked;
+        size_t total = 0;
+        for (size_t a = 0; a < A; ++a) {
+            l << (size_t)calls[a].size(); total += calls[a].size();
+            for (auto & c : calls[a]) { l << c.uLen; putVector(l, c.v); l << c.has; if (c.has) putVector(l, c.b); }
+        }
+        putVList(l, in); putVList(l, w);
+        l.emit();
+        std::printf("#stat wt_lp_calls:%zu 1\n#stat wt_O:%zu 1\n#stat wt_walked:%d 1\n", std::min<size_t>(total, 60) / 5 * 5, O, (int)walked);
+    }
+}
+
+// PBVI warm start: operator()(model, beliefs, v0) / operator()(model, v0).  v0 is (0,1) what another solver returned
+// (consistent; PERSEUS' has a non-zero terminal list), (2) an ARBITRARY stack of lists (links may even be out of range:
+// PBVI must keep it verbatim and only read its last list), (3) a single non-zero terminal list with several entries.
+static void emitPBVIW(Rng & rng) {
+    size_t S = 1 + rng.below(4), A = 1 + rng.below(3), O = rng.coin() ? 2 : (rng.coin() ? 1 : 3);
+    unsigned h = 1 + (unsigned)rng.below(3);
+    auto pt = randomPomdp(rng, S, A, O);
+    Model model = toDense(pt);
+    int mode = (int)rng.below(4);
+    P::ValueFunction v0;
+    AIToolbox::Seeder::setRootSeed((unsigned)rng.below(1u << 30));
+    if (mode == 0) { P::IncrementalPruning s0(1 + (unsigned)rng.below(2), 0.0); v0 = std::get<1>(s0(model)); }
+    else if (mode == 1) { P::PERSEUS s0(4, 1 + (unsigned)rng.below(3), 0.0); v0 = std::get<1>(s0(model, pt.R.minCoeff())); }
+    else {
+        size_t L = mode == 3 ? 1 : 1 + rng.below(3);
+        for (size_t k = 0; k < L; ++k) {
+            P::VList w; size_t n = 1 + rng.below(3);
+            for (size_t i = 0; i < n; ++i) {
+                P::VEntry e; e.values.resize(S);
+                for (size_t s = 0; s < S; ++s) e.values[s] = (double)rng.range(-16, 16) / 4.0;
+                e.action = rng.below(A);
+                if (k > 0) for (size_t o = 0; o < O; ++o) e.observations.push_back(rng.below(5));
+                w.push_back(e);
+            }
+            v0.push_back(w);
+        }
+    }
+    bool expl = rng.coin(3, 4);
+    auto bl = someBeliefs(rng, S, 1 + rng.below(S + 3));
+    if (rng.coin(1, 3)) bl.erase(bl.begin(), bl.begin() + std::min<size_t>(bl.size() - 1, S));
+    P::PBVI solver(expl ? bl.size() : 6, h, 0.0);
+    P::ValueFunction vf = expl ? std::get<1>(solver(model, bl, v0)) : std::get<1>(solver(model, v0));
+    if (!expl) bl.clear();
+    Line l; l << "C04" << "pbviw"; putPomdp(l, pt); l << expl << (size_t)bl.size();
+    for (const auto & b : bl) putVector(l, b);
+    l << h << "|"; putVF(l, v0); l << "|"; putVF(l, vf); l.emit();
+    std::printf("#stat pbviw_mode:%d 1\n#stat pbviw_explicit:%d 1\n#stat pbviw_v0_levels:%zu 1\n", mode, (int)expl, v0.size());
+}
+
+static void emitMK(Rng & rng) {
+    size_t S = 1 + rng.below(6), A = 1 + rng.below(3), O = 1 + rng.below(3);
+    auto v = P::makeValueFunction(S);
+    P::Policy pol(S, A, O);
+    // the documented rejection: a Policy cannot be built from an empty ValueFunction
+    std::string thrown = "none";
+    try { P::Policy bad(S, A, O, P::ValueFunction{}); } catch (const std::exception & e) { thrown = errClass(e); }
+    Line l; l << "C04" << "mk" << S << A << O << "|"; putVF(l, v); l << "|"; putVF(l, pol.getValueFunction()); l << "|" << thrown << (size_t)pol.getH() << (size_t)pol.getO(); l.emit();
+}
+
 // ---------------------------------------------------------------- case table
 static const long kFixed = 16;
-long verif::verif_ncases(const std::string & tier) { return kFixed + (tier == "thorough" ? 25000 : 900); }
+long verif::verif_ncases(const std::string & tier) { return kFixed + (tier == "thorough" ? 25000 : 1500); }
 
 void verif::verif_case(Rng & rng, long idx, const std::string & tier) {
     if (idx == 0) { runSolver(rng, 5, witnessQmdp(), 2); return; }           // known finding witness
@@ -445,28 +687,48 @@ void verif::verif_case(Rng & rng, long idx, const std::string & tier) {
         for (size_t nB : {2, 3, 20}) emitPERSEUSOn(regressingTables(), nB, 8, 7);
         return;
     }
-    if (idx >= 8 && idx < kFixed) { for (int k = 0; k < 12; ++k) { emitXD(rng); emitPR(rng); emitCS(rng); emitPJ(rng); emitPBVI(rng); emitWV(rng); emitPERSEUS(rng); emitLS(rng); } return; }
+    if (idx >= 8 && idx < kFixed) { for (int k = 0; k < 12; ++k) { emitXD(rng); emitPR(rng); emitCS(rng); emitPJ(rng); emitPBVI(rng); emitWV(rng); emitPERSEUS(rng); emitLS(rng); emitPBVIW(rng); emitPBVIW(rng); emitMK(rng); emitIP(rng); emitWT(rng); } return; }
     long r = idx - kFixed;
     int which = (int)(r % 6);
     size_t S = 2 + rng.below(3), A = 1 + rng.below(3), O = 1 + rng.below(3);
     unsigned h = 1 + (unsigned)rng.below(4);
+    if (rng.coin(1, 10)) S = 1;                                               // a single state: beliefs are the point (1)
     if (which == 0 && rng.coin(1, 4)) O = 4 + rng.below(4);                   // longer merge schedules for IncrementalPruning
+    if (which != 0 && which != 2 && rng.coin(1, 8)) O = 5 + rng.below(4);     // O >> S for the point-based solvers, Witness and QMDP
     if (O >= 4) { h = std::min(h, 2u); S = std::min<size_t>(S, 3); }
-    bool ugly = rng.coin(1, 5), sparse = rng.coin(1, 5);
+    if (which == 1 && O >= 5) { O = std::min<size_t>(O, 6); S = std::min<size_t>(S, 2); A = std::min<size_t>(A, 2); }   // Witness enumerates variations: keep it cheap
+    bool ugly = rng.coin(1, 5);
+    int sparse = rng.coin(1, 5) ? 1 : (rng.coin(1, 4) ? 2 : 0);             // 1 = SparseModel, 2 = element-wise (non-Eigen) model
     // LinearSupport enumerates polytope vertices naively: keep its instances small (its cost is not this property's subject)
+<<<<<<< HEAD
     if (which == 2) { if (ugly) { S = std::min<size_t>(S, 3); h = std::min(h, 2u); } else if (S == 4) h = std::min(h, (O >= 3 && A >= 2) ? 2u : 3u); }   // S=4, A=3, O=3, h=3 took > 120 s under ASan (thorough seed 1 case 20370)
+=======
+    if (which == 2) { if (ugly) { S = std::min<size_t>(S, 3); h = std::min(h, 2u); } else if (S == 4) h = std::min(h, A * O >= 9 ? 2u : 3u); }
+    if (which == 0 && S == 4 && A * O >= 9) h = std::min(h, 3u);             // the two shapes that took 40-60 s (a busy machine turns that into a reported hang)
+>>>>>>> c04r4
     auto pt = ugly ? uglyPomdp(rng, S, A, O) : randomPomdp(rng, S, A, O);
     if (ugly) std::printf("#stat ugly 1\n");
+    // large / tiny / offset magnitudes (powers of two keep the dyadic tables exact): the tolerance comparisons (dominates, the
+    // Projecter's cut, findBestAtPoint ties) and the checker's relative-or-absolute test see values far from 1.  Not for the
+    // LP-driven agenda loops of Witness / LinearSupport (their running time on such inputs is not this property's subject).
+    if (which != 1 && which != 2 && rng.coin(1, 6)) {
+        int k = rng.coin() ? 20 : (rng.coin() ? -20 : 10);
+        if (k < 0 && sparse == 1) sparse = 0;      // SparseModel's converting constructor drops rewards <= 1e-6 by design: it would not be the POMDP the line states
+        double off = rng.coin(1, 3) ? std::ldexp(1.0, k + 6) : 0.0;
+        pt.R = pt.R * std::ldexp(1.0, k) + AIToolbox::Matrix2D::Constant(pt.R.rows(), pt.R.cols(), off);
+        std::printf("#stat reward_scale:2^%d%s 1\n", k, off != 0.0 ? "+offset" : "");
+    }
     double tol = (rng.coin(1, 8)) ? 0.5 : 0.0;                                // early stop on tolerance: shorter value function
     // point-based solvers on a SPARSE support (fewer beliefs than |S|+1) over many horizons: backups may regress there
     size_t fewBeliefs = 0;
     if ((which == 3 || which == 4) && rng.coin(1, 2)) {
         fewBeliefs = 1 + rng.below(3); h = 4 + (unsigned)rng.below(5); tol = 0.0;
         if (O == 3) h = std::min(h, 6u);
+        if (O >= 4) h = std::min(h, 3u);                                      // O^h histories are replayed
     }
     if (std::getenv("VERIF_DEBUG")) std::fprintf(stderr, "case %ld: %s S=%zu A=%zu O=%zu h=%u ugly=%d sparse=%d tol=%g\n", idx, kSolvers[which], S, A, O, h, (int)ugly, (int)sparse, tol);
     runSolver(rng, which, pt, h, tol, sparse, fewBeliefs);
-    if (r % 10 == 0) { emitXD(rng); emitPR(rng); emitCS(rng); emitPJ(rng); emitPBVI(rng); emitWV(rng); emitPERSEUS(rng); emitPERSEUS(rng); emitLS(rng); }
+    if (r % 10 == 0) { emitXD(rng); emitPR(rng); emitCS(rng); emitPJ(rng); emitPBVI(rng); emitWV(rng); emitPERSEUS(rng); emitPERSEUS(rng); emitLS(rng); emitPBVIW(rng); emitPBVIW(rng); emitIP(rng); emitWT(rng); }
 }
 
 VERIF_MAIN
